@@ -196,6 +196,15 @@ func (vc *VC) cutLoop(f *Frame, l *Loop, n *Node) {
 		}
 		sv := env2.eval(sp.E)
 		lit := bvLit(sv.sort().Bits(), val)
+		if val == sp.Lo {
+			// the split must be exhaustive: the invariant implies lo <= E <= hi (checked once, in the first case)
+			le, ge := "bvsle", "bvsge"
+			if !sv.signed() {
+				le, ge = "bvule", "bvuge"
+			}
+			vc.oblige("split-exhaustive", fmt.Sprintf("case split of loop %d: the invariant implies %d <= %s <= %d", l.Ordinal, sp.Lo, sp.Text, sp.Hi), n.Reach,
+				and(app(ge, sv.term(), bvLit(sv.sort().Bits(), sp.Lo)), app(le, sv.term(), bvLit(sv.sort().Bits(), sp.Hi))), "@split")
+		}
 		vc.assume(implies(n.Reach, eq(sv.term(), lit)))
 		if isAtom(sv.term()) || strings.HasPrefix(sv.term(), "(select (select ") {
 			vc.consts[sv.term()] = lit
